@@ -81,6 +81,8 @@ struct Shared {
     pending_inbound: HashSet<usize>,
     /// Completion handles of the futures returned from `accept()`.
     accept: HashMap<usize, oneshot::Sender<bool>>,
+    /// Connections for which `accept()` itself must fail (connection dropped before the call).
+    fail_accept: HashSet<usize>,
 }
 
 /// Scripted transport. Behaves like the TCP transport at the trait boundary (same synchronous
@@ -110,7 +112,7 @@ impl Transport for ScriptedTransport {
     ) -> crate::Result<BoxFuture<'static, crate::Result<()>>> {
         let cid = connection_id.verif_as_usize();
         let mut s = self.shared.lock();
-        let ok = s.pending_open.remove(&cid);
+        let ok = s.pending_open.remove(&cid) && !s.fail_accept.remove(&cid);
         s.calls.push(Call::Accept { cid, ok });
         if !ok {
             return Err(no_conn(connection_id));
@@ -359,6 +361,12 @@ impl ManagerHarness {
         self.shared.lock().pending_inbound.insert(cid);
         self.push(TransportEvent::PendingInboundConnection { connection_id: ConnectionId::from(cid) });
         cid
+    }
+
+    /// Make the `accept(cid)` call itself fail (the transport lost the connection between
+    /// announcing it and the manager's decision).
+    pub fn fail_accept_call(&mut self, cid: usize) {
+        self.shared.lock().fail_accept.insert(cid);
     }
 
     /// Complete the future returned by `accept(cid)`. Returns false if there is none.
